@@ -36,7 +36,9 @@ type step struct {
 	Clock int // index into clockSteps
 }
 
-var compilable = []string{"a.go", "b.xgo", "c.gop", "d.gox", "main_test.go", "x_test.xgo", ".hidden.go", "gop_autogen.go", "B.xgo", "a.b.go"}
+var compilable = []string{"a.go", "b.xgo", "c.gop", "d.gox", "main_test.go", "x_test.xgo", ".hidden.go", "gop_autogen.go", "B.xgo", "a.b.go",
+	// names whose shape resembles class files, test files or other special cases but which are plain sources
+	"round_rect.gox", "foo_test.gox", "x_y.gop", "a_b_c.xgo", "Kai_spx.gox", "-.go", "ü.xgo", "a b.go"}
 var irrelevant = []string{"README.md", "data.txt", "noext", "a.go.bak", "b.xgo~", "_skip.go", "_a.xgo", "go.sum", "c.gop.orig", "Makefile"}
 var clockSteps = []time.Duration{0, 1, 999, 1000, 500 * time.Microsecond, 400 * time.Millisecond, time.Second, 1500 * time.Millisecond, 3 * time.Second, time.Hour, -1, -time.Second, -2500 * time.Millisecond, 0, 1}
 var grans = []time.Duration{1, 1, time.Microsecond, time.Second, 2 * time.Second}
